@@ -903,6 +903,13 @@ class Engine:
         for quiet in quiet_paths:
             self.front[quiet] = empty_front(self.global_time)
 
+    def _next_time(self, full_step: float) -> float:
+        '''Global time after ``full_step``, on the precision grid.'''
+        next_time = self.global_time + full_step
+        if self.global_time_precision is not None:
+            next_time = round(next_time, self.global_time_precision)
+        return next_time
+
     def run_for(
             self,
             interval: float,
@@ -1008,10 +1015,10 @@ class Engine:
                 self.global_time = next_event
                 self._advance_quiet_paths(quiet_paths)
 
-            elif self.global_time + full_step <= end_time:
+            elif self._next_time(full_step) <= end_time:
                 # at least one process ran within the interval
                 # increase the time, apply updates, and continue
-                self.global_time += full_step
+                self.global_time = self._next_time(full_step)
 
                 # advance all quiet processes to current time
                 for quiet in quiet_paths:
